@@ -288,6 +288,8 @@ func TestVerifC11(t *testing.T) {
 			c11LineLengths(rep, x.N, x.N)
 		case "fan-out":
 			c11FanOut(rep, 40)
+		case "depth":
+			c11Depths(rep, x.N, x.N)
 		case "octet":
 			c11Octets(rep, x.N, x.N)
 		default:
@@ -299,6 +301,7 @@ func TestVerifC11(t *testing.T) {
 		"distinct = distinct (entry set, name, verdict) triples; every case is non-trivial by construction (entries are parents/children/duplicates/case variants of each other and of the names); "+
 		"plus a label-length sweep (every label length 1..63 x 4 octet styles as entry label / parent / child / tld / full:, queried with the same label, a sibling differing in the last octet, one octet shorter and longer, children) "+
 		"an octet sweep (every octet value 0..255 as the first octet of a label: raw in a plain / full: entry, and in a regexp entry written against its text form; queried with the octet, its lower-case form and two neighbours) "+
+		"a depth sweep (query names of every depth 1..124 one-octet labels plus tld, and one deeper - under the entries zz / the name itself / its parent / full: the name / a sibling of the same depth / k leading labels cut off) "+
 		"a fan-out sweep (a node with 1..40 children, one of them with a deeper entry, its own entry loaded first / in the middle / last / not at all) "+
 		"and a line-length sweep (every line length 0..%d in 6 file templates: long comment after an entry, long comment line, leading / trailing blanks, long regexp entry, long last line without newline; "+
 		"the comment text is made of dotted labels so that any piece of it read as an entry matches one of the 130 queried names)",
@@ -326,6 +329,7 @@ func TestVerifC11(t *testing.T) {
 	rec(nil)
 	c11LabelLengths(rep, 1, 63)
 	c11FanOut(rep, 40)
+	c11Depths(rep, 1, 124)
 	c11Octets(rep, 0, 255)
 	if c11P == "C11" {
 		c11LineLengths(rep, 0, report.ParamInt("MAXLINE", 9000))
@@ -610,6 +614,54 @@ func c11FanOut(rep *report.R, max int) {
 			names := [][][]byte{c11L("c0", "zone"), c11L("y", "c0", "zone"), c11L("x", "c0", "zone"), c11L("a", "x", "c0", "zone"), c11L("zone"), c11L("cx", "zone"),
 				c11L("c1", "zone"), c11L("q", "c1", "zone"), c11L(fmt.Sprintf("c%d", n-1), "zone"), c11L("q", fmt.Sprintf("c%d", n-1), "zone"), c11L(fmt.Sprintf("c%d", n), "zone")}
 			c11Check(rep, fmt.Sprintf("fan-out=%d:c0.zone-loaded-%s", n, pos), true, [][]byte{[]byte(strings.Join(lines, "\n") + "\n")}, rs, names, map[string]any{"Family": "fan-out", "N": n})
+		}
+	}
+}
+
+// c11Depths: names of every depth lo..hi (one-octet labels d(i) ... d1 under "zz"; a name of 255 octets has at most 127 labels),
+// as query names and as entries: the tld entry, the name itself, its parent, full: the name, a sibling of the same depth, and
+// entries that are the name with its first k labels cut off. Matching walks the labels right to left whatever their number.
+func c11Depths(rep *report.R, lo, hi int) {
+	lab := func(i int) string { return string(rune('a' + i%26)) }
+	mk := func(d int, first string) [][]byte {
+		var ls []string
+		for i := d; i >= 1; i-- {
+			l := lab(i)
+			if i == d && first != "" {
+				l = first
+			}
+			ls = append(ls, l)
+		}
+		ls = append(ls, "zz")
+		return c11L(ls...)
+	}
+	text := func(n [][]byte) string { return string(c11Text(n)) }
+	for d := lo; d <= hi; d++ {
+		if !report.Owns(d) {
+			continue
+		}
+		name := mk(d, "")
+		sib := mk(d, "0")
+		child := append(c11L("k"), name...)
+		names := [][][]byte{name, sib, child, name[1:], c11L("zz"), c11L("y")}
+		if d > 40 {
+			names = append(names, name[d-33:], name[d-32:], name[d-31:]) // its last 34 / 33 / 32 labels
+		}
+		sets := map[string][]string{
+			"tld":       {"zz"},
+			"itself":    {text(name)},
+			"parent":    {text(name[1:])},
+			"full":      {"full:" + text(name)},
+			"sibling":   {text(sib)},
+			"cut-8":     {text(name[min(8, d):])},
+			"unrelated": {"y", "full:" + text(sib)},
+		}
+		for what, lines := range sets {
+			var rs []c11Ref
+			for _, ln := range lines {
+				rs = append(rs, c11ParseEntry([]byte(ln)))
+			}
+			c11Check(rep, fmt.Sprintf("depth=%d:%s", d, what), true, [][]byte{[]byte(strings.Join(lines, "\n") + "\n")}, rs, names, map[string]any{"Family": "depth", "N": d})
 		}
 	}
 }
